@@ -1,7 +1,7 @@
 (* Correspondence runner for C13, regenerated definitions (tie (T)): the cases of Corr/C13.v are also
    evaluated with the definitions of coq/Gen/C13_gen.v (written from the current source by
    harness/c13_py2coq.py), so the translator itself is validated against the implementation on every run.
-   computeParams / __init__: the regenerated computeParams (and default lambda_) against the observed
+   computeParams / __init__: the regenerated computeParams (with the regenerated chiN and default lambda_) against the observed
    parameters; update: the regenerated step size and counter against the observed ones, and the observed
    path pc against the one recomputed with the regenerated h_sigma (the matrix part is not repeated). *)
 From Coq Require Import List Bool PrimFloat.
@@ -27,7 +27,7 @@ Definition check_gen (c : case) : bool :=
   | CInit centroid sigma k e obsP obsS =>
       let dim := length centroid in
       let lambda_ := getd (k_lambda k) (gen_default_lambda dim) in
-      params_close (gen_computeParams F dim lambda_ (chiN_of F dim) k) obsP
+      params_close (gen_computeParams F dim lambda_ (gen_chiN F dim) k) obsP
   | CUpdate P st pop e obs => check_update_gen P st pop obs
   | CGen P st arz obs => true
   end.
